@@ -4458,6 +4458,10 @@ fn cas_addressed_segment_reference_from_payload(
     let first_lsn = Lsn::from_raw(cursor.read_u64()?);
     let last_lsn = Lsn::from_raw(cursor.read_u64()?);
     let anchor_count = cursor.read_usize()?;
+    // The count comes from untrusted bytes: never reserve more than the payload can still hold.
+    if anchor_count > bytes.len().saturating_sub(cursor.offset) / 32 {
+        return Err(WscStoreObstruction::invalid_wsc(wsc_digest));
+    }
     let mut commit_anchor_digests = Vec::with_capacity(anchor_count);
     for _ in 0..anchor_count {
         commit_anchor_digests.push(cursor.read_hash()?);
